@@ -5,7 +5,8 @@ open Wpull
 def engines : List (String × (List String → String)) := [
   ("ftp", Wpull.Ftp.handle),
   ("crawl", Wpull.Crawl.handle),
-  ("path", Wpull.Path.handle)
+  ("path", Wpull.Path.handle),
+  ("robots", Wpull.Robots.handle)
 ]
 
 def handle (line : String) : String :=
